@@ -7,3 +7,4 @@ import PasskeyVerif.Props.C13
 import PasskeyVerif.Props.C04
 import PasskeyVerif.Props.C05
 import PasskeyVerif.Props.C08
+import PasskeyVerif.Props.C11
